@@ -406,7 +406,7 @@ def _two_casings(ctx, tree, style, n):
 
 
 @item('single-statements', stands_in_for=STANDS, shards=3, weight=2,
-      bound="C04's single-statement space (prelude + one statement + observation epilogue; 2338 programs) in fixed shuffled order, each program "
+      bound="C04's single-statement space (prelude + one statement + observation epilogue; 3007 programs) in fixed shuffled order, each program "
             'with all keywords in one of UPPER / Capitalised / mixed (rotating) and one random per-keyword mix, plain and verbose style '
             'alternating; population rich; as far as the time budget allows')
 def single_statements(ctx):
@@ -426,7 +426,7 @@ def single_statements(ctx):
 
 
 @item('control-flow', stands_in_for=STANDS, shards=3, weight=2,
-      bound="C04's control-flow space (15982 programs of <= 3 statements) in fixed shuffled order, each with all keywords in one of UPPER / "
+      bound="C04's control-flow space (20475 programs of <= 3 statements) in fixed shuffled order, each with all keywords in one of UPPER / "
             'Capitalised / mixed (rotating) and one random per-keyword mix, plain and verbose style alternating; population rich; as far as '
             'the time budget allows')
 def control_flow(ctx):
